@@ -15,7 +15,8 @@ EXPLANATION = (
     "(canonical arm), data_canonical, is_dir_oriented and canonical_kmer are evaluated in the ordering domain - "
     "they touch the two packed words only through comparisons/min/moves (checked), so the three orderings "
     "a<b, a=b, a>b are a complete case split; (K2) the per-base complement table is the involution 0<->3, 1<->2 "
-    "on {0,1,2,3} wherever a per-base complement is written; (K3) in every loop of the modules that define the "
+    "on {0,1,2,3} wherever a per-base complement is written; (K4) every shift and arithmetic site of the k-mer module is "
+    "defined for all k in 1..=32 (the C18 audit restricted to that module: `1 << 2k` and `64 - 2k` at k = 32); (K3) in every loop of the modules that define the "
     "k-mers the properties speak about (k-mer enumeration, both segmenters, the second-pass splitter scans) a "
     "base is inserted into the window only under base <= 3 and the other arm resets the window before the next "
     "iteration.  The shift/mask arithmetic of the sliding window itself is bit-level value reasoning and is "
@@ -135,6 +136,20 @@ def run(F, rep):
                    ok_guard and ok_reset, detail="inserted value %s; guard implies <= 3: %s; other arm resets: %s" % (fmt(sym), ok_guard, ok_reset),
                    site=site_of(f, t), key="C20-K3 | %s | guarded insert" % f.key)
     rep.floor("C20-K3", nl, 6, "loops inserting bases into a k-mer window (enumeration, segmenters, splitter scans)")
+    # ------------------------------------------------------------ K4: the masks and shifts of the k-mer type are defined for every k in 1..=32
+    # (k = 32 is where `1 << 2k` and `64 - 2k` reach the width of the word: the overflow audit of C18, restricted to the
+    #  k-mer module, with the same guard / interval discharge and the same reasoned table)
+    if getattr(F, "cfg", "dev") == "dev":
+        from rules import c18
+        sub = type(rep)(rep.pid, rep.tier)
+        import callgraph as cg4
+        import pipeline as pl4
+        live = pl4.live_scope(F, cg4.CallGraph(F))
+        keys = [k for k, f in F.funcs.items() if k.startswith("ragc_core::kmer::") and k in live and f.kind != "promoted"]
+        n4, a4, t4, _ = c18.audit_scope(F, keys, sub, c18.load_table())
+        for o in sub.obligations:
+            rep.ob("C20-K4", o["instance"], o["ok"], detail=o["detail"], site=o["site"], how=o["how"], key=o["key"].replace("C18-O", "C20-K4"))
+        rep.floor("C20-K4", n4, 10, "shift / arithmetic sites of the k-mer module (functions the tool can reach)")
     # notes: heuristic helpers outside the armed modules
     for f in F.funcs.values():
         if f.key.startswith("ragc_core::agc_compressor::") and any(is_call(t, r"kmer::Kmer::insert") for _, t in f.calls()):
